@@ -3,15 +3,17 @@
 #                             /repo at /tmp/shadow/repo (so that seeded changes can be tried while a
 #                             long run is using /repo itself). Development aid only: registered checks
 #                             and committed evidence always come from /verif run against /repo.
+# shadow.sh sync            - like make, but leaves the scratch worktree on its current commit
 # shadow.sh try <ID> <patch> [tier] - applies the patch to the scratch worktree, runs the check, reverts
 # shadow.sh rm              - removes everything again
 set -u
 S=/tmp/shadow
 case "${1:-}" in
-  make)
+  make|sync)
     mkdir -p $S
     [ -d $S/repo ] || git -C /repo worktree add -q $S/repo HEAD || exit 2
-    git -C $S/repo checkout -q --detach "$(git -C /repo rev-parse HEAD)"
+    # sync: keep whatever the scratch worktree is on (e.g. a hook change being developed)
+    [ "$1" = sync ] || git -C $S/repo checkout -q --detach "$(git -C /repo rev-parse HEAD)"
     rsync -a --delete --exclude target --exclude 'target-*' --exclude .git --exclude replays --exclude evidence --exclude seeded /verif/ $S/verif/
     mkdir -p $S/verif/evidence $S/verif/replays
     grep -rl "/repo" $S/verif/harness $S/verif/e3 --include=*.toml --include=*.rs | xargs sed -i "s#\"/repo#\"$S/repo#g"
@@ -27,5 +29,5 @@ case "${1:-}" in
   rm)
     git -C /repo worktree remove --force $S/repo; git -C /repo worktree prune; rm -rf $S
     ;;
-  *) echo "usage: shadow.sh make|try <ID> <patch> [tier]|rm"; exit 2;;
+  *) echo "usage: shadow.sh make|sync|try <ID> <patch> [tier]|rm"; exit 2;;
 esac
